@@ -9,7 +9,8 @@ SHARD = 150
 SKIPPED_FN = "case_unsupported"
 CASE_TIMEOUT = 30
 RULE = ("SF-core recipes weighted toward the id mechanism (forward references by nickname/table name, "
-        "nicknames, zero counts, nested templates, friends, just_once, hidden tables), 1-4 iterations; "
+        "nicknames, zero counts, nested templates, friends, just_once, hidden tables), 1-4 iterations, half of them "
+        "split into chains of continuation runs through real continuation files; "
         "compared projection: the (table, id) sequence and the run outcome.  non-trivial: the recipe has a "
         "forward reference, a zero count, a nickname or >= 2 iterations, and completes; distinct by recipe hash")
 TRUSTED = ["harness/sfcore.py: recipe AST -> YAML / Coq printers; capture OutputStream reading .id at write time"]
@@ -18,49 +19,94 @@ ASSUMPTIONS = ["the theorems are about the SF-core fragment (Interp.v); recipes 
 W = dict(fwd=0.5, nick=0.55, ref=0.32, zero_count=0.18, once=0.25, hidden_table=0.12, formula=0.25)
 
 
+def gen_case(rng):
+    from .c04 import row_valued_in_once
+    r, feats = S.gen_recipe(rng, W)
+    k = rng.choice([1, 2, 2, 3, 4])
+    ks = [k]
+    if k >= 2 and rng.random() < 0.5 and not row_valued_in_once(r):
+        # split the k iterations into a chain of continuation runs
+        cut = sorted(rng.sample(range(1, k), rng.randint(1, k - 1)))
+        ks = [b - a for a, b in zip([0] + cut, cut + [k])]
+    return {"recipe": r, "ks": ks, "features": feats}
+
+
 def generate(rng, tier):
     n = 380 if tier == "quick" else 10000
-    cases = []
-    for _ in range(n):
-        r, feats = S.gen_recipe(rng, W)
-        cases.append({"recipe": r, "reps": rng.choice([1, 2, 2, 3, 4]), "features": feats})
-    return cases
+    return [gen_case(rng) for _ in range(n)]
 
 
 def run_impl(case):
-    return S.run_recipe(case["recipe"], reps=case["reps"])
+    runs, cont = [], None
+    ks = case["ks"]
+    for i, k in enumerate(ks):
+        o = S.run_recipe(case["recipe"], reps=k, continuation=cont, want_continuation=(i < len(ks) - 1))
+        cont = o.get("cont")
+        runs.append({kk: vv for kk, vv in o.items() if kk != "cont"})
+        if "ok" not in o:
+            break
+        if i < len(ks) - 1:
+            import yaml
+            runs[-1]["last_used_ids"] = yaml.safe_load(cont)["id_manager"]["last_used_ids"]
+    return {"runs": runs}
 
 
 def coq_case(case, obs):
-    return S.proj_case_coq("PIds", case["recipe"], case["reps"], obs)
+    runs = obs["runs"]
+    if all("ok" in r for r in runs):
+        if not all(S.comparable(r["ok"]) for r in runs):
+            return None
+        exp = "(Ok " + C.clist(S.rows_coq(r["ok"]) for r in runs) + ")"
+    else:
+        exp = f"(Err {C.cerr(runs[-1]['err'])})"
+    return f"CHist PIds {S.recipe_coq(case['recipe'])} {C.clist(C.cnat(k) for k in case['ks'])} {exp}"
 
 
 def oracle(case, obs):
-    if "err" in obs:
-        if obs["err"] != "DGE":
-            return f"internal-error: {obs['err']}: {obs.get('msg','')[:120]}"
-        return None
-    for t, ids in S.ids_by_table(obs["ok"]).items():
+    runs = obs["runs"]
+    for r in runs:
+        if "err" in r:
+            if r["err"] != "DGE":
+                return f"internal-error: {r['err']}: {r.get('msg','')[:120]}"
+            return None
+    allrows = [row for r in runs for row in r["ok"]]
+    for t, ids in S.ids_by_table(allrows).items():
         if sorted(ids) != list(range(1, len(ids) + 1)):
-            return f"ids-not-dense: table {t}: emitted ids {ids[:30]} are not exactly 1..{len(ids)}"
+            return f"ids-not-dense: table {t}: ids emitted over the history {case['ks']} are {ids[:30]}, not exactly 1..{len(ids)}"
+    # each continuation file records the highest id issued so far
+    seen = {}
+    for r in runs:
+        for t, ids in S.ids_by_table(r["ok"]).items():
+            seen[t] = max(seen.get(t, 0), max(ids))
+        rec = r.get("last_used_ids")
+        if rec is not None:
+            for t, m in seen.items():
+                if rec.get(t, 0) < m:
+                    return f"continuation-file-counter: table {t}: file records {rec.get(t)} but id {m} was emitted"
     return None
 
 
 def nontrivial(case, obs):
     f = set(case.get("features", []))
-    return "ok" in obs and len(obs["ok"]) >= 2 and (bool(f & {"forward_ref", "zero_count", "nick"}) or case["reps"] >= 2)
+    runs = obs["runs"]
+    return (all("ok" in r for r in runs) and sum(len(r["ok"]) for r in runs) >= 2
+            and (bool(f & {"forward_ref", "zero_count", "nick"}) or sum(case["ks"]) >= 2))
 
 
-stats = S.feature_stats
-shrink = S.shrink_recipe_case
+def stats(cases, obss):
+    from collections import Counter
+    st = S.feature_stats(cases, [o["runs"][-1] for o in obss if isinstance(o, dict) and o.get("runs")])
+    st["histories"] = dict(Counter("+".join(map(str, c["ks"])) for c in cases))
+    return st
+
+
+def shrink(case):
+    from .c04 import shrink as sh
+    yield from sh(case)
 
 
 def directed_search(rng, disagreeing):
-    out = []
-    for _ in range(1500):
-        r, feats = S.gen_recipe(rng, W)
-        out.append({"recipe": r, "reps": rng.choice([1, 2, 3, 4]), "features": feats})
-    return out
+    return [gen_case(rng) for _ in range(1500)]
 
 
 def match_finding(case, obs, msg, findings):
